@@ -68,8 +68,8 @@ func (b Bytes) Bytes() []byte {
 
 // Hash computes a hash for a Bytes.
 func (b Bytes) Hash(seed uintptr) uintptr {
-	// TODO: implement a []byte-friendly hash function.
-	return hash.String(string(b.b), seed)
+	// The offset is part of the value.
+	return hash.String(string(b.b), hash.Int(b.offset, seed))
 }
 
 // Equal tests two Byteses for equality. Any other type returns false.
